@@ -141,7 +141,7 @@ def c14(deep):
                 ("document total_timeout 1500ms shorter than the per-test timeout 20s", "---\ntotal_timeout: 1500ms\n---\n\n", "{timeout: 20s}", ()),
                 ("--timeout-seconds 2", "", "", ("--timeout-seconds", "2")),
                 # the per-test limit comes from the document's `defaults` (C16's layer below the test case): it must be in effect when the limit is computed
-                ("per-test timeout 300ms from the document defaults", "---\ndefaults:\n  timeout: 300ms\n---\n\n", "", ())]:
+                ("per-test timeout 1500ms from the document defaults (it applies to the quick test cases as well)", "---\ndefaults:\n  timeout: 1500ms\n---\n\n", "", ())]:
             tests = [("sleep 6", [], inline) if i == pos else (f"echo t{i}", [f"t{i}"], "") for i in range(3)]
             want = ["success"] * pos + ["timeout"] + ["skipped"] * (2 - pos) + ["success"]
             check(f"md, slow test case at position {pos + 1}, {vname}", [("a_slow.md", md(tests, front)), OK_DOC], lambda g, w=want: g == w, 50, args, str(want))
